@@ -172,7 +172,7 @@ def run(ctx):
                 ctx.sample({"spec_to_code": core.ucs(m["src"]), "start": m["start"], "expected_tokens": [t["t"] for t in m["out"]]})
                 first = False
     # 1a. random deep behaviours (TLC -simulate, depth 12-16 fragments; the simulator exports every successor it generates)
-    for alpha, num, depth in (("markup", 40 if ctx.quick else 1500, 12), ("script", 40 if ctx.quick else 1500, 16), ("words", 40 if ctx.quick else 1200, 10)):
+    for alpha, num, depth in (("markup", 40 if ctx.quick else 400, 12), ("script", 40 if ctx.quick else 400, 16), ("words", 40 if ctx.quick else 300, 10)):
         r = ctx.tlc("MC_Tokenizer", cfg(alpha, depth, True, listed), "sim-" + alpha, keep_records=False,
                     simulate="num=%d" % num, depth=depth + 1, seed=ctx.seed, workers=1)
         if r.violated:
